@@ -411,6 +411,23 @@ def prepare_filter(entry, ctx):
         inst = getattr(F, cls)(**kwc)
         meth = getattr(inst, fn.split('.')[1])
         call_kw = {'method': kwc['method']} if cls == 'FLAE' else {}
+        if cls == 'TRIAD' and r.random() < 0.5:
+            call_kw = {'representation': 'quaternion'}
+        used = None
+        if fn.endswith('.estimate') and r.random() < 0.4:
+            # a per-sample estimator has no memory: an object that has already processed a whole recording answers a sample
+            # exactly as a new object does (first call: the used object, repetition: the new one)
+            try:
+                used = getattr(F, cls)(A, Mg, **dict(kwc, **({'representation': 'quaternion'} if cls == 'TRIAD' and call_kw else {})))
+            except Exception:       # noqa: BLE001
+                used = None
+        if used is not None:
+            turn = {'n': 0}
+            new_meth, used_meth = meth, getattr(used, fn.split('.')[1])
+
+            def meth(*a_, **k_):        # noqa: F811
+                turn['n'] += 1
+                return (used_meth if turn['n'] == 1 else new_meth)(*a_, **k_)
         # a per-sample estimator is stateless: another, strongly inconsistent sample in between must not matter
         a2 = ctx.vec('mag', shared_ok=False) * 0.3 + a1
         m2 = np.cross(a1, m1) + 0.1 * m1
@@ -420,7 +437,7 @@ def prepare_filter(entry, ctx):
                 meth(a2, m2, **call_kw)
             except Exception:       # noqa: BLE001
                 pass
-        return fn + (f"[{kwc['method']}]" if kwc else ''), (lambda: meth(a1, m1, **call_kw)), [a1, m1], ('disturb', disturb)
+        return fn + (f"[{kwc['method']}]" if kwc else '') + ('[used-object]' if used is not None else ''), (lambda: meth(a1, m1, **call_kw)), [a1, m1], ('disturb', disturb)
     if fn in ('Madgwick.updateIMU', 'Madgwick.updateMARG', 'AQUA.updateIMU', 'AQUA.updateMARG', 'Fourati.update', 'AngularRate.update'):
         # update methods of the classes that carry no estimator state besides the quaternion they are handed: the same
         # call gives the same answer, whatever the object was asked in between (other samples, another period for
